@@ -210,9 +210,13 @@ def partition_volume(volume: float, *, max_volume: Union[int, float]) -> List[fl
     if volume < max_volume:
         return [volume]
     isteps = math.ceil(volume / max_volume)
-    step_volume = math.ceil(volume / isteps)
+    # balanced integer-valued steps, but never above a (possibly non-integer) max_volume
+    step_volume = min(math.ceil(volume / isteps), max_volume)
     volumes: List[float] = [step_volume] * (isteps - 1)
-    volumes.append(volume - numpy.sum(volumes))
+    # min() guards against float round-off pushing the last step above max_volume at exact multiples
+    rest = min(volume - numpy.sum(volumes), max_volume)
+    if rest > 0:
+        volumes.append(rest)
     return volumes
 
 
